@@ -8,8 +8,8 @@ import (
 	"go/types"
 	"os"
 	"regexp"
-	"sort"
 	"rscheck/rules/reent"
+	"sort"
 	"strings"
 
 	"golang.org/x/tools/go/cfg"
